@@ -53,10 +53,8 @@ func variantsFor(prop, tier string) []string {
 	case "C10":
 		return []string{"inst", "inst-race"}
 	case "C14":
-		if tier == "quick" {
-			return []string{"plain", "pie", "inst", "inst-race"}
-		}
-		return []string{"plain", "pie", "inst", "inst-race"}
+		// plain-pop: the same worker with another population of types
+		return []string{"plain", "plain-pop", "pie", "inst", "inst-race"}
 	}
 	return []string{"plain"}
 }
